@@ -41,19 +41,22 @@ pub struct Case {
     pub child: bool,
 }
 
-/// conventional definition in which some named items carry env(NAME)
-pub fn decode_level(u: &mut Un) -> (Level, Vec<(String, Ty, bool)>) {
+/// conventional definition in which some named items carry env(NAME); the last component lists
+/// the leaves that are to lose their short and long names (items known by their variable only)
+fn decode_level_named(u: &mut Un) -> (Level, Vec<(String, Ty, bool)>, Vec<usize>) {
     let mut names = Names::new();
     let cfg = ConvCfg {
         max_named: 5,
         max_depth: 2,
         usage_fallback: true,
+        collect: true,
         ..ConvCfg::default()
     };
     let mut level = gen_conv_level(u, &mut names, &cfg, 1);
     // attach variables
     let mut vars: Vec<(String, Ty, bool)> = Vec::new();
-    fn go(n: &mut Node, u: &mut Un, vars: &mut Vec<(String, Ty, bool)>) {
+    let mut env_only: Vec<usize> = Vec::new();
+    fn go(n: &mut Node, u: &mut Un, vars: &mut Vec<(String, Ty, bool)>, env_only: &mut Vec<usize>) {
         match n {
             Node::Named(x) => {
                 if vars.len() < 5 && u.chance(130) {
@@ -67,13 +70,16 @@ pub fn decode_level(u: &mut Un) -> (Level, Vec<(String, Ty, bool)>) {
                         x.envs.push(name.clone());
                         vars.push((name, ty, is_arg));
                     }
+                    if u.chance(40) {
+                        env_only.push(x.id);
+                    }
                 }
             }
-            Node::Cmd(c) => go(&mut c.level.body, u, vars),
+            Node::Cmd(c) => go(&mut c.level.body, u, vars, env_only),
             Node::Pos(_) | Node::Pure(_) | Node::Fail(_) => {}
             Node::Seq(xs) | Node::Alt(xs) | Node::Adjacent(xs) => {
                 for x in xs {
-                    go(x, u, vars);
+                    go(x, u, vars, env_only);
                 }
             }
             Node::Optional { n, .. }
@@ -94,16 +100,44 @@ pub fn decode_level(u: &mut Un) -> (Level, Vec<(String, Ty, bool)>) {
             | Node::WithGroupHelp(n, _)
             | Node::Complete { n, .. }
             | Node::CompleteShell(n, _)
-            | Node::Boxed(n) => go(n, u, vars),
+            | Node::Boxed(n) => go(n, u, vars, env_only),
         }
     }
-    go(&mut level.body, u, &mut vars);
+    go(&mut level.body, u, &mut vars, &mut env_only);
+    (level, vars, env_only)
+}
+
+/// items known by their variable only: `env("X").argument(..)`
+fn strip_names(level: &mut Level, env_only: &[usize]) {
+    fn go(n: &mut Node, env_only: &[usize]) {
+        match n {
+            Node::Named(x) => {
+                if env_only.contains(&x.id) {
+                    x.shorts.clear();
+                    x.longs.clear();
+                }
+            }
+            Node::Cmd(c) => go(&mut c.level.body, env_only),
+            other => {
+                for c in other.children_mut() {
+                    go(c, env_only);
+                }
+            }
+        }
+    }
+    go(&mut level.body, env_only);
+}
+
+/// the definition as the child process builds it
+pub fn decode_level(u: &mut Un) -> (Level, Vec<(String, Ty, bool)>) {
+    let (mut level, vars, env_only) = decode_level_named(u);
+    strip_names(&mut level, &env_only);
     (level, vars)
 }
 
 pub fn decode(bytes: &[u8]) -> Case {
     let mut u = Un::new(bytes);
-    let (level, vars) = decode_level(&mut u);
+    let (mut level, vars, env_only) = decode_level_named(&mut u);
     let used = u.used().min(bytes.len());
     let mut spec_bytes = bytes[..used].to_vec();
     spec_bytes.resize(used.max(1), 0);
@@ -130,6 +164,15 @@ pub fn decode(bytes: &[u8]) -> Case {
         }
     }
     strip(&mut sent, &env_leaves, &mut u, &mut env_decides);
+    // items known by their variable only cannot be written on the line at all
+    fn strip_all(s: &mut LevelSent, leaves: &[usize]) {
+        s.named.retain(|o| !leaves.contains(&o.leaf));
+        if let Some((_, sub)) = s.cmd.as_mut() {
+            strip_all(sub, leaves);
+        }
+    }
+    strip_all(&mut sent, &env_only);
+    strip_names(&mut level, &env_only);
     let mut stats = RenderStats::default();
     let mut argv = render_conv(&mut u, &sent, &RenderCfg::default(), &mut stats);
     if u.chance(40) {
@@ -335,6 +378,10 @@ impl Prop for C18 {
                     Some(f) => f,
                     None => continue,
                 };
+                if l.shorts.is_empty() && l.longs.is_empty() {
+                    // an item known by its variable only has no line in the option list
+                    continue;
+                }
                 let val = envmap.get(first);
                 let want = if l.is_arg() {
                     match val {
